@@ -19,3 +19,24 @@ func (m *Map) VerifDump() string {
 	}
 	return s
 }
+
+// VerifShift turns the state into the one that the same history would have
+// produced had dk more packets (in dpid more frames) been withheld long ago,
+// outside every window: all sequence-number and picture-id deltas move
+// together.  It is how the correspondence check reaches states that real
+// histories only reach after tens of thousands of withheld packets (deltas
+// around the 16-bit wrap).  It does nothing to a map that has withheld nothing.
+func (m *Map) VerifShift(dk, dpid uint16) bool {
+	m.mu.Lock()
+	defer m.mu.Unlock()
+	if len(m.entries) == 0 {
+		return false
+	}
+	m.delta += dk
+	m.pidDelta += dpid
+	for i := range m.entries {
+		m.entries[i].delta += dk
+		m.entries[i].pidDelta += dpid
+	}
+	return true
+}
